@@ -277,12 +277,12 @@ func TestVerifC07Volume(t *testing.T) {
 	defer r.Finish()
 	N := vkit.Pick(2048, 16384)
 	r.Bounds["proofs_per_credential"] = N
-	r.Rule = fmt.Sprintf("one credential with a witness (toy key), %d proofs in a row per kind {disclosure without / with non-revocation part (cache never prepared), randomised signature alone}; non-trivial = distinct proof; oracle over all pairs (linear-time set membership): A, C_r, C_u never repeat, implied randomisers of every hidden attribute, the secret key and the exponent pairwise distinct", N)
+	r.Rule = fmt.Sprintf("one credential with a witness (toy key), %d proofs in a row per kind {disclosure without / with non-revocation part (cache never prepared), randomised signature alone, issuance commitment of a fresh builder, keyshare secret + commitment, proof randomisers}; non-trivial = distinct proof; oracle over all pairs (linear-time set membership): A, C_r, C_u never repeat, implied randomisers of every hidden attribute, the secret key and the exponent pairwise distinct", N)
 	kA := vfK("toyB")
 	pks := map[string]*gabikeys.PublicKey{"A": kA.Pk}
 	vfInstallEnv(t, "C07/volume", r.Seed)
 	secret := vfTag("c07-secret")
-	for _, kind := range []string{"prove-plain", "prove-nonrev", "randomize"} {
+	for _, kind := range []string{"prove-plain", "prove-nonrev", "randomize", "issuance-commit", "keyshare-commitments", "proof-randomizers"} {
 		if _, mine := r.Next(); !mine {
 			continue
 		}
@@ -300,6 +300,51 @@ func TestVerifC07Volume(t *testing.T) {
 			}
 			r.Eval()
 			r.Nontrivial(fmt.Sprintf("%s #%d", kind, i))
+			if kind == "issuance-commit" {
+				cb, err := NewCredentialBuilder(kA.Pk, vfContext, secret, vsNonce2, nil, nil)
+				var msg *IssueCommitmentMessage
+				if err == nil {
+					msg, err = cb.CommitToSecretAndProve(vfNonce)
+				}
+				if err != nil {
+					r.Violate("C07|commit-failed", err.Error(), kind)
+					return
+				}
+				items = append(items, c07Item{op: kind, list: 2000 + i, cred: "A", u: msg.Proofs[0].(*ProofU), bld: i + 1})
+				continue
+			}
+			if kind == "keyshare-commitments" || kind == "proof-randomizers" {
+				var vals map[string]*big.Int
+				if kind == "proof-randomizers" {
+					rnd, err := NewProofRandomizers()
+					if err != nil {
+						r.Violate("C07|randomizers-failed", err.Error(), kind)
+						return
+					}
+					vals = rnd
+				} else {
+					ks, err := NewKeyshareSecret()
+					if err != nil {
+						r.Violate("C07|keyshare-secret-failed", err.Error(), kind)
+						return
+					}
+					rnd, comms, err := NewKeyshareCommitments(ks, []*gabikeys.PublicKey{vfK("k1024a").Pk})
+					if err != nil || len(comms) != 1 {
+						r.Violate("C07|keyshare-commitments-failed", fmt.Sprint(err), kind)
+						return
+					}
+					vals = map[string]*big.Int{"keyshare secret": ks, "keyshare randomizer": rnd, "keyshare commitment": comms[0].Pcommit}
+				}
+				for name, v := range vals {
+					key := name + "|" + v.String()
+					if j, dup := seenA[key]; dup {
+						r.Violate("C07|repeated-value|"+kind, fmt.Sprintf("calls %d and %d (out of %d) returned the same %s", j, i, n, name), kind)
+						break
+					}
+					seenA[key] = i
+				}
+				continue
+			}
 			if kind == "randomize" {
 				s, err := credA.Signature.Randomize(kA.Pk)
 				if err != nil {
